@@ -1,5 +1,6 @@
 use super::*;
 use crate::knox::short_group_sig_core::short_group_traits::ProofOfSignatureKnowledge;
+use crate::statement::SignatureStatement;
 use std::collections::BTreeMap;
 
 impl<S: ShortGroupSignatureScheme> Presentation<S> {
@@ -16,9 +17,16 @@ impl<S: ShortGroupSignatureScheme> Presentation<S> {
         for (id, sig_statement) in &signature_statements {
             match (sig_statement, self.proofs.get(*id)) {
                 (Statements::Signature(ss), Some(PresentationProofs::Signature(proof))) => {
+                    let disclosed = self.disclosed_messages.get(&ss.id).ok_or(
+                        Error::InvalidPresentationData(format!(
+                            "no disclosed messages were included for signature statement '{}'",
+                            ss.id
+                        )),
+                    )?;
+                    Self::check_disclosed_messages(ss, proof, disclosed)?;
                     Self::add_disclosed_messages_challenge_contribution(
                         &ss.id,
-                        &self.disclosed_messages[&ss.id],
+                        disclosed,
                         &mut transcript,
                     );
                     let verifier = SignatureVerifier::new(ss, proof);
@@ -179,6 +187,57 @@ impl<S: ShortGroupSignatureScheme> Presentation<S> {
         Ok(())
     }
 
+    /// The claims a presentation reports as disclosed must be exactly the claims the
+    /// statement requests, and the index -> scalar map the proof of knowledge is checked
+    /// against must be exactly their encodings at the positions the issuer's schema
+    /// assigns to their labels.
+    fn check_disclosed_messages(
+        statement: &SignatureStatement<S>,
+        proof: &SignatureProof<S>,
+        disclosed: &IndexMap<String, ClaimData>,
+    ) -> CredxResult<()> {
+        let err = |why: &str| {
+            Error::InvalidPresentationData(format!(
+                "disclosed messages of signature statement '{}' are invalid: {}",
+                statement.id, why
+            ))
+        };
+        // labels the issuer's schema does not know cannot be disclosed by any holder
+        // and are ignored, exactly as the prover does
+        let requested = statement
+            .disclosed
+            .iter()
+            .filter(|label| statement.issuer.schema.claim_indices.contains(*label))
+            .count();
+        if disclosed.len() != requested || proof.disclosed_messages.len() != disclosed.len() {
+            return Err(err("not exactly the requested claims"));
+        }
+        for (label, claim) in disclosed {
+            if !statement.disclosed.contains(label) {
+                return Err(err("a claim that was not requested is disclosed"));
+            }
+            let index = statement
+                .issuer
+                .schema
+                .claim_indices
+                .get_index_of(label)
+                .ok_or_else(|| err("unknown claim label"))?;
+            let claim_schema = statement
+                .issuer
+                .schema
+                .claims
+                .get(index)
+                .ok_or_else(|| err("unknown claim index"))?;
+            if !claim.is_type(claim_schema.claim_type) {
+                return Err(err("a disclosed claim has the wrong type"));
+            }
+            if proof.disclosed_messages.get(&index) != Some(&claim.to_scalar()) {
+                return Err(err("a disclosed claim does not match the signature proof"));
+            }
+        }
+        Ok(())
+    }
+
     fn get_sig_hidden_message_proofs(
         &self,
         schema: &PresentationSchema<S>,
@@ -196,11 +255,13 @@ impl<S: ShortGroupSignatureScheme> Presentation<S> {
                     .ok_or(Error::InvalidPresentationData(format!("signature proof with id '{}' does not have an associated statement", s.id)))?
                 {
                     Statements::Signature(sig_st) => {
-                        let disclosed_messages: Vec<(usize, Scalar)> = s
+                        let mut disclosed_messages: Vec<(usize, Scalar)> = s
                             .disclosed_messages
                             .iter()
                             .map(|(idx, scalar)| (*idx, *scalar))
                             .collect();
+                        // the index -> response lookup walks the list in ascending order
+                        disclosed_messages.sort_by_key(|(idx, _)| *idx);
                         let hidden_messages = s
                             .pok
                             .get_hidden_message_proofs(
